@@ -374,7 +374,7 @@ def u_categorical(ctx):
             for j, (p, m, kind) in enumerate(cases[::step]):
                 kc += 1
                 run_judge(n, form, p, m, _np_out(jf(jnp.asarray(p), jnp.asarray(m), ctx.key(kc))), "jit", kind)
-                if j % 2 == 0:
+                if j % ctx.n(6, 2) == 0:
                     run_judge(n, form, p, m, _np_out(ef(jnp.asarray(p), m, ctx.key(kc + 100000))), "eager", kind)
         ctx.monitor("categorical_n_exhaustive_in_masks")
     # larger n, random masks
@@ -920,9 +920,11 @@ def q_leg(ctx, pre, make_policy, ref_q, ns):
                 kc += 1
                 keys = jr.split(ctx.key(900_000 + kc), len(cases))
                 outs = _np_out(eqx.filter_jit(eqx.filter_vmap(f, in_axes=(None, 0, 0, 0)))(pol, O, M, keys))
-                O0 = jnp.asarray(np.stack([cases[i * len(masks)][0] for i in range(n_obs)]))
-                outs0 = _np_out(eqx.filter_jit(eqx.filter_vmap(lambda p, o, k: f(p, o, None, k), in_axes=(None, 0, 0)))(
-                    pol, O0, keys[:n_obs]))
+                with_nomask = (not ctx.quick) or (si + ei) % 2 == 0
+                if with_nomask:
+                    O0 = jnp.asarray(np.stack([cases[i * len(masks)][0] for i in range(n_obs)]))
+                    outs0 = _np_out(eqx.filter_jit(eqx.filter_vmap(lambda p, o, k: f(p, o, None, k), in_axes=(None, 0, 0)))(
+                        pol, O0, keys[:n_obs]))
                 estep = max(1, len(cases) // ctx.n(6, 16))
                 for i, (o, m) in enumerate(cases):
                     q = ref_q(pol, o)
@@ -930,14 +932,15 @@ def q_leg(ctx, pre, make_policy, ref_q, ns):
                     if i % estep == 0:  # eager, concrete mask, with and without key
                         out["modes_x"] = {"eager": [np.asarray(pol(None, jnp.asarray(o), action_mask=jnp.asarray(m))[1]),
                                                     np.asarray(pol(None, jnp.asarray(o), action_mask=m)[1])]}
-                        ek = np.asarray(pol(None, jnp.asarray(o), action_mask=jnp.asarray(m), key=keys[i])[1])
-                        ctx.monitor("q_eager_keyed_calls")
-                        if not m[int(ek)]:
-                            ctx.violation(f"{pre}-sample-masked", {"mode": "eager", "epsilon": eps, "mask": bits(m), "got": ek})
+                        if i % (estep * ctx.n(6, 2)) == 0:  # eager lax.cond recompiles on every call: keep these few
+                            ek = np.asarray(pol(None, jnp.asarray(o), action_mask=jnp.asarray(m), key=keys[i])[1])
+                            ctx.monitor("q_eager_keyed_calls")
+                            if not m[int(ek)]:
+                                ctx.violation(f"{pre}-sample-masked", {"mode": "eager", "epsilon": eps, "mask": bits(m), "got": ek})
                     judge_q(ctx, pre, q, m, eps, out,
                             {"n": n, "epsilon": eps, "variant": variant, "mask": bits(m), "h": digest(o, m)},
                             f"{pre}/eps{eps}/{'restricting' if not m.all() else 'all-allowed'}", {"obs": o, "ref_q": q}, fwd)
-                for i in range(n_obs):
+                for i in range(n_obs if with_nomask else 0):
                     o = cases[i * len(masks)][0]
                     q = ref_q(pol, o)
                     judge_q(ctx, pre, q, None, eps, jax.tree.map(lambda x: x[i], outs0),
